@@ -341,10 +341,14 @@ func init() {
 				body          []byte
 			}
 			var queue [][]pk
+			big := false
 			for t := 0; t < 1+r.Intn(3); t++ {
 				total := 1 + r.Intn(6)
 				if r.Intn(12) == 0 {
-					total = []int{40, 255}[r.Intn(2)]
+					total = []int{40, 255, 256, 257, 300, 513}[r.Intn(6)]
+				}
+				if total > 255 {
+					big = true // (re-requests are specified for totals up to 255: such a session has no idle periods)
 				}
 				var ps []pk
 				for no := 1; no <= total; no++ {
@@ -381,6 +385,9 @@ func init() {
 					age = []int{4800, 5200, 6000}[r.Intn(3)]
 				case 1:
 					age = []int{29000, 59800, 60200}[r.Intn(3)]
+				}
+				if big {
+					age = 0
 				}
 				frames = append(frames, partFrame(r, p.id, ver, phone, next(), p.total, p.no, p.body))
 				ages = append(ages, age)
@@ -432,10 +439,34 @@ func init() {
 					}
 				}
 			}
+			// every ninth session: several transfers go stale together - all of them are past the 60 s limit at the same read, all
+			// of them are discarded, and their late packets complete nothing
+			if s%9 == 4 {
+				frames, ages = nil, nil
+				nt := 2 + r.Intn(3)
+				for t := 0; t < nt; t++ {
+					frames = append(frames, partFrame(r, ids[t], ver, phone, next(), 3, 1, []byte{byte(t), 1}))
+					ages = append(ages, []int{0, 0, 300}[r.Intn(3)])
+					if r.Intn(2) == 0 {
+						frames = append(frames, partFrame(r, ids[t], ver, phone, next(), 3, 2, []byte{byte(t), 2}))
+						ages = append(ages, 0)
+					}
+				}
+				frames = append(frames, buildFrame(hdrSpec{id: 0x0002, serial: next(), ver: ver, verbyte: 1, phone: phone}))
+				ages = append(ages, []int{60200, 61000, 59000}[r.Intn(3)])
+				for t := 0; t < nt; t++ {
+					for no := 2; no <= 3; no++ {
+						frames = append(frames, partFrame(r, ids[t], ver, phone, next(), 3, no, []byte{byte(t), byte(no)}))
+						ages = append(ages, []int{0, 0, 1500}[r.Intn(3)])
+					}
+				}
+				frames = append(frames, buildFrame(hdrSpec{id: 0x0002, serial: next(), ver: ver, verbyte: 1, phone: phone}))
+				ages = append(ages, 5200)
+			}
 			// feed: frame-aligned with ages, or re-segmented without ages
 			e := service.VerifNewExtractor()
 			out.put(XStep{Op: "reset", Sess: s, Out: []XMsg{}, Rereq: []XReq{}, Bytes: B{}})
-			if r.Intn(2) == 0 || s%3 == 1 {
+			if r.Intn(2) == 0 || s%3 == 1 || s%9 == 4 {
 				for k, f := range frames {
 					if ages[k] > 0 {
 						e.Age(time.Duration(ages[k]) * time.Millisecond)
@@ -490,6 +521,54 @@ func init() {
 			return nil
 		}); err != nil {
 			die(err)
+		}
+	}
+}
+
+func init() {
+	// extract-hostile <out>: transfers announcing totals that no re-request can list (256 and more, up to 65535), left idle for more
+	// than 5 s and 60 s of logical time and then continued: whatever the extractor answers, it does not panic and keeps working
+	cmds["extract-hostile"] = func(a []string) {
+		out := newND(a[0])
+		defer out.close()
+		r := newRand(1015)
+		phone := []byte{0x01, 0x33, 0x00, 0x00, 0x07, 0x07}
+		for _, total := range []int{255, 256, 257, 300, 511, 512, 513, 1000, 32768, 65535} {
+			for variant := 0; variant < 3; variant++ {
+				e := service.VerifNewExtractor()
+				serial := 0
+				next := func() int { serial++; return serial }
+				pn := ""
+				step := func(f []byte) {
+					if pn == "" {
+						st := feedX(e, f)
+						pn = st.Panic
+					}
+				}
+				step(partFrame(r, 0x0801, 0, phone, next(), total, 1, []byte{1, 2, 3}))
+				if variant > 0 {
+					step(partFrame(r, 0x0801, 0, phone, next(), total, total, []byte{4}))
+				}
+				e.Age(5200 * time.Millisecond)
+				step(buildFrame(hdrSpec{id: 0x0002, serial: next(), phone: phone}))
+				e.Age(5200 * time.Millisecond)
+				step(partFrame(r, 0x0801, 0, phone, next(), total, 2, []byte{5}))
+				if variant == 2 {
+					e.Age(61 * time.Second)
+					step(buildFrame(hdrSpec{id: 0x0002, serial: next(), phone: phone}))
+					step(partFrame(r, 0x0801, 0, phone, next(), total, 3, []byte{6}))
+					e.Age(5200 * time.Millisecond)
+					step(buildFrame(hdrSpec{id: 0x0002, serial: next(), phone: phone}))
+				}
+				// it still extracts an ordinary frame
+				alive := false
+				if pn == "" {
+					st := feedX(e, buildFrame(hdrSpec{id: 0x0200, serial: next(), phone: phone, body: make([]byte, 28)}))
+					pn = st.Panic
+					alive = len(st.Out) == 1 && st.Out[0].ID == 0x0200
+				}
+				out.put(map[string]any{"total": total, "variant": variant, "panic": pn, "alive": alive})
+			}
 		}
 	}
 }
